@@ -25,7 +25,10 @@ def save_meta(d, m):
 
 
 def confirm(d, wt):
-    env = dict(os.environ, PYTHONPATH=os.path.join(wt, "src"))
+    d = os.path.abspath(d)
+    tmpd = wt.rstrip("/") + "_tmp"
+    os.makedirs(tmpd, exist_ok=True)
+    env = dict(os.environ, PYTHONPATH=os.path.join(wt, "src"), TMPDIR=tmpd)
     patch = os.path.join(d, "patch.diff")
     demo = os.path.join(d, "demo.py")
     sh("git checkout -- . && git clean -fdq", cwd=wt)
@@ -34,13 +37,14 @@ def confirm(d, wt):
     if rca != 0:
         m = load_meta(d); m["confirmed"] = False; m["confirm_note"] = "patch does not apply: " + outa[-300:]; save_meta(d, m); return m
     rc1, out1 = sh(f"/venv/bin/python {demo}", cwd=wt, env=env, timeout=900)
-    rct, outt = sh("/venv/bin/python -m pytest -q -p no:cacheprovider --timeout=900 tests 2>&1 | tail -5", cwd=wt, env=env, timeout=3000)
+    rct, outt = sh("/venv/bin/python -m pytest -q -p no:cacheprovider --timeout=900 tests 2>&1 | grep -E '[0-9]+ (passed|failed)' | tail -2", cwd=wt, env=env, timeout=3000)
     sh("git checkout -- . && git clean -fdq", cwd=wt)
     summ = [l for l in outt.splitlines() if "passed" in l or "failed" in l]
     summ = summ[-1] if summ else outt[-200:]
     mt = re.search(r"(\d+) failed, (\d+) passed", summ) or re.search(r"(\d+) passed", summ)
     ok_suite = bool(mt) and ("134 passed" in summ) and ("1 failed" in summ)
     m = load_meta(d)
+    m.pop("confirm_note", None)
     m.update(confirmed=bool(rc0 == 0 and rc1 != 0 and ok_suite), demo_clean_exit=rc0, demo_patched_exit=rc1, suite_with_patch=summ.strip(),
              demo_patched_tail=out1.strip()[-400:], demo_clean_tail=out0.strip()[-200:])
     save_meta(d, m)
@@ -48,6 +52,7 @@ def confirm(d, wt):
 
 
 def detect(d, extra):
+    d = os.path.abspath(d)
     m = load_meta(d)
     prop = m.get("property") or os.path.basename(d.rstrip("/")).split("_")[0]
     patch = os.path.join(d, "patch.diff")
@@ -69,6 +74,9 @@ def detect(d, extra):
     finally:
         sh("git checkout -- .", cwd="/repo")
     m["property"] = prop
+    hist = m.setdefault("runs", [])
+    hist.append(dict(at=time.strftime("%Y-%m-%d %H:%M"), verif_commit=sh("git rev-parse --short HEAD", cwd=VERIF)[1].strip(),
+                     verdicts={k: v.get("exit") for k, v in res.items() if isinstance(v, dict)}))
     m.setdefault("detection", {}).update(res)
     m["detected_by"] = sorted(k for k, v in m["detection"].items() if isinstance(v, dict) and v.get("exit") == 1)
     save_meta(d, m)
